@@ -6,6 +6,7 @@ package main
 // reference tree keep their identity (rules name them explicitly).
 
 import (
+	"strings"
 	"go/token"
 
 	"golang.org/x/tools/go/ssa"
@@ -119,53 +120,7 @@ func calleeEstablishes(h *ssa.Function, isErr bool, truth bool, alts []FP, depth
 	if !isNewHelper(h) || depth > 2 {
 		return false
 	}
-	anyHolds := func(f Fact) bool {
-		for _, p := range alts {
-			if p.holds(f) {
-				return true
-			}
-		}
-		return false
-	}
-	// entails: value v being `t` entails one of the patterns
-	var entails func(v ssa.Value, t bool, d int) bool
-	entails = func(v ssa.Value, t bool, d int) bool {
-		if d > 3 {
-			return false
-		}
-		for {
-			u, ok := v.(*ssa.UnOp)
-			if !ok || u.Op != token.NOT {
-				break
-			}
-			v, t = u.X, !t
-		}
-		if b, ok := v.(*ssa.BinOp); ok && negOp(b.Op) != token.ILLEGAL {
-			op := b.Op
-			if !t {
-				op = negOp(op)
-			}
-			return anyHolds(Fact{L: b.X, R: b.Y, Op: op})
-		}
-		if anyHolds(Fact{L: v, Truth: t}) {
-			return true
-		}
-		conj, disj := boolStructure(v, t, 0)
-		for _, cf := range conj {
-			if anyHolds(cf) {
-				return true
-			}
-		}
-		if len(disj) > 0 {
-			for _, df := range disj {
-				if !anyHolds(df) {
-					return false
-				}
-			}
-			return true
-		}
-		return false
-	}
+	entails := func(v ssa.Value, t bool, d int) bool { return valueEntails(v, t, alts, d) }
 	n := 0
 	for _, r := range returns(h) {
 		if isErr {
@@ -366,4 +321,153 @@ func sitesV(fn *ssa.Function, match func(ssa.Instruction) bool) []VSite {
 	}
 	walk(fn, nil, 0)
 	return out
+}
+
+
+// valueEntails: the boolean value v being equal to t entails one of the fact
+// patterns.  Looks through !x, comparisons and the phi shapes of && and ||
+// (recursively: `A || (B && C)` being false entails !A, and !B or !C).
+func valueEntails(v ssa.Value, t bool, alts []FP, d int) bool {
+	if d > 4 {
+		return false
+	}
+	anyHolds := func(f Fact) bool {
+		for _, p := range alts {
+			if p.holds(f) {
+				return true
+			}
+		}
+		return false
+	}
+	for {
+		u, ok := v.(*ssa.UnOp)
+		if !ok || u.Op != token.NOT {
+			break
+		}
+		v, t = u.X, !t
+	}
+	if b, ok := v.(*ssa.BinOp); ok && negOp(b.Op) != token.ILLEGAL {
+		op := b.Op
+		if !t {
+			op = negOp(op)
+		}
+		return anyHolds(Fact{L: b.X, R: b.Y, Op: op})
+	}
+	if anyHolds(Fact{L: v, Truth: t}) {
+		return true
+	}
+	factEntails := func(f Fact) bool {
+		if anyHolds(f) {
+			return true
+		}
+		return f.Op == token.ILLEGAL && f.L != nil && valueEntails(f.L, f.Truth, alts, d+1)
+	}
+	conj, disj := boolStructure(v, t, 0)
+	for _, cf := range conj {
+		if factEntails(cf) {
+			return true
+		}
+	}
+	if len(disj) > 0 {
+		for _, df := range disj {
+			if !factEntails(df) {
+				return false
+			}
+		}
+		return true
+	}
+	return false
+}
+
+// yieldClosures: the synthetic range-over-func bodies of fn.
+func yieldClosures(fn *ssa.Function) []*ssa.Function {
+	var out []*ssa.Function
+	for _, g := range withClosures(fn) {
+		if g != fn && g.Synthetic == "range-over-func yield" {
+			out = append(out, g)
+		}
+	}
+	return out
+}
+
+// yieldResultStores: `return v` statements inside range-over-func bodies of fn
+// are compiled into a store of v to fn's result cell (captured by the yield
+// closure) followed by a jump-code store; this lists those stores for result idx.
+func yieldResultStores(fn *ssa.Function, idx int) []*ssa.Store {
+	// result cells of fn: allocs whose loads are returned at position idx
+	cells := map[*ssa.Alloc]bool{}
+	for _, r := range returns(fn) {
+		if idx >= len(r.Results) {
+			continue
+		}
+		if u, ok := r.Results[idx].(*ssa.UnOp); ok && u.Op == token.MUL {
+			if a, ok := u.X.(*ssa.Alloc); ok {
+				cells[a] = true
+			}
+		}
+	}
+	var out []*ssa.Store
+	for _, g := range yieldClosures(fn) {
+		for _, b := range g.Blocks {
+			for _, in := range b.Instrs {
+				st, ok := in.(*ssa.Store)
+				if !ok {
+					continue
+				}
+				if a, ok := cellOf(st.Addr).(*ssa.Alloc); ok && cells[a] {
+					out = append(out, st)
+				}
+			}
+		}
+	}
+	return out
+}
+
+// inRangeFuncResume: the block belongs to the dispatch code that follows a
+// range-over-func call (it re-returns what the yield closure stored).
+func inRangeFuncResume(b *ssa.BasicBlock) bool {
+	return strings.HasPrefix(b.Comment, "rangefunc.resume")
+}
+
+// refParamName is the name parameter p had on the reference tree (by position);
+// the current name when the function is new or its arity changed.
+func refParamName(p *ssa.Parameter) string {
+	fn := p.Parent()
+	if fn == nil || fn.Parent() != nil {
+		return p.Name()
+	}
+	if refParams == nil {
+		refParams = loadAnchorParams()
+	}
+	names, ok := refParams[fnName(fn)]
+	if !ok || len(names) != len(fn.Params) {
+		return p.Name()
+	}
+	for i, q := range fn.Params {
+		if q == p {
+			return names[i]
+		}
+	}
+	return p.Name()
+}
+
+// refParamIndex: position (in Args of a static call, receiver included) of the
+// parameter that was called name on the reference tree; -1 if unknown.
+func refParamIndex(callee *ssa.Function, name string) int {
+	if callee == nil || callee.Parent() != nil {
+		return -1
+	}
+	if refParams == nil {
+		refParams = loadAnchorParams()
+	}
+	names, ok := refParams[fnName(callee)]
+	if !ok || len(names) != len(callee.Params) {
+		return -1
+	}
+	for i, n := range names {
+		if n == name {
+			return i
+		}
+	}
+	return -1
 }
